@@ -136,24 +136,25 @@ def dictionary_cases():
     cases = []
     for v in NOVEL:
         if v > 70000:
-            lims = [v]
-            caps = []
-        else:
-            lims = [v]
-            caps = [v, v + 1]
-        n = min(v + 2, 70000)
+            continue
+        caps = [v, v + 1, 2 * v, 2 * v + 1]
+        lims = [v, v + 1, 2 * v, 4 * v + 1]
+        n = min(4 * v + 2, 300000)
         s2 = [97 + (i % 26) for i in range(n)]
+        c = max(v, 1)
+        scripts = [[], [(3, 0, 0), (0, c, 0)], [(0, c, 0), (3, 0, 0)], [(0, c, 0), (1, 5, 0)], [(0, c, 0), (0, c, 0), (3, 0, 0)]]
         for limit in lims:
             for cap in ([8] + caps):
                 for pre in ((), (1, 2)):
                     ops = [("R", pre, cap, 0), ("R", pre, cap, 0), ("R", (), 8, 0)]
-                    cases.append(mk_atake(limit, s2, [], [], ops, "dictionary"))
-                    cases.append(mk_atake(limit, s2, [(3, 0, 0), (0, max(min(v, 70000), 1), 0)], [], ops, "dictionary"))
+                    for sc in scripts:
+                        cases.append(mk_atake(limit, s2, sc, [], ops, "dictionary"))
         for cap in caps:
             for pre in ((), (1, 2)):
                 ops = [("R", pre, cap, 0), ("R", pre, cap, 0), ("R", (), 8, 0), ("R", (), 8, 0)]
-                cases.append(mk_achain(s2[:min(n, 3)], [], s2, [], [], ops, "dictionary"))
-                cases.append(mk_achain(s2, [(0, max(min(v, 70000), 1), 0)], [99, 100], [], [], ops, "dictionary"))
+                for sc in scripts:
+                    cases.append(mk_achain(s2[:min(n, 3)], [], s2, sc, [], ops, "dictionary"))
+                    cases.append(mk_achain(s2, sc, [99, 100], [], [], ops, "dictionary"))
     return cases
 
 
